@@ -293,6 +293,12 @@ impl Report {
         });
     }
 
+    /// Keeps only the violations whose signature satisfies `keep` (a monitor that serves a second
+    /// property with a subset of its clauses).
+    pub fn retain_violations<F: Fn(&str) -> bool>(&mut self, keep: F) {
+        self.violations.retain(|v| keep(&v.signature));
+    }
+
     pub fn violations_so_far(&self) -> usize {
         self.violations.len()
     }
